@@ -237,6 +237,12 @@ class Exec(Engine):
                     pass        # the general route: the comprehension as a sequence, then sum() of a sequence of ints
             if f.id == 'implies' and self.pure:
                 a = self.truthy(self.ev1(node.args[0], st), st)
+                # vacuity bookkeeping: a guard that is literally false on EVERY path it is evaluated on marks a clause that never
+                # says anything (typically a misspelt event count); reported per function at the end of verify_function
+                vg = self.__dict__.setdefault('guard_stats', {})
+                key_ = (self.cur_fn, ast.unparse(node.args[0])[:160])
+                rec_ = vg.setdefault(key_, [0, 0])
+                rec_[0 if (a.lit is not None and not a.lit[1]) else 1] += 1
                 if a.lit is not None and not a.lit[1]:
                     return [(VBool(TRUE), st)]      # guard is literally false: the consequent may be meaningless
                 b = self.truthy(self.ev1(node.args[1], st), st)
@@ -341,6 +347,14 @@ class Exec(Engine):
         args = [self.ev1(a, st) for a in node.args]
         name = args[0].t.lit[1]
         evs = [e for e in self.events_of(st) if e['name'] == name or e['name'].endswith(':' + name) or e['name'].endswith('.' + name)]
+        if not evs:
+            # a name nothing can ever log (a misspelt event) would make count clauses vacuous
+            builtin_events = {'yield', 'compile', 'exec', 'eval', 'asyncio.run', 'store', 'warnings.warn', 'format_exception_only',
+                              'Namespace.clear', 'catch_warnings.__enter__', 'catch_warnings.__exit__', 'print'}
+            known = name in builtin_events or any(
+                b == name or b.endswith(':' + name) or b.endswith('.' + name) for b in (q.split('#')[0] for q in C.CONTRACTS))
+            if not known:
+                raise Undecided('event %r is not the name of any function under contract or of a modelled external call' % name, node)
         if kind == 'ev_count':
             return VInt(IntV(len(evs)))
         if kind == 'ev_raised':
